@@ -8,6 +8,7 @@
 //               (a callback that runs then touches a finished operation)
 // tools/props/c04.py turns every line with live_rcv != 0, live_ext != 0, after != 0 or an unexpected completion into a
 // violation (key c04probe/<name>/...).
+#include <unifex/let_value_with_stop_token.hpp>
 #include <unifex/stop_on_request.hpp>
 #include <unifex/inplace_stop_token.hpp>
 #include <unifex/manual_lifetime.hpp>
@@ -15,6 +16,7 @@
 #include <unifex/sender_concepts.hpp>
 
 #include <cstdio>
+#include <functional>
 #include <exception>
 #include <stdexcept>
 #include <string>
@@ -74,6 +76,62 @@ struct receiver {
   friend inplace_stop_token tag_invoke(tag_t<get_stop_token>, const receiver& r) noexcept { return r.rec->src->get_token(); }
 };
 
+// ---- a child that remembers the stop token it was given and completes when the probe says so -------------------
+struct tok_ctl {
+  inplace_stop_token seen_tok;
+  bool started = false, stopped_at_start = false;
+  std::function<void(char)> complete;
+};
+template <typename R>
+struct tok_op {
+  R r; tok_ctl* c;
+  void start() noexcept {
+    c->started = true;
+    c->seen_tok = unifex::get_stop_token(r);
+    c->stopped_at_start = c->seen_tok.stop_requested();
+    c->complete = [this](char k) {
+      if (k == 'd') unifex::set_done(std::move(r)); else unifex::set_value(std::move(r));
+    };
+  }
+};
+struct tok_sender {
+  template <template <typename...> class Variant, template <typename...> class Tuple>
+  using value_types = Variant<Tuple<>>;
+  template <template <typename...> class Variant>
+  using error_types = Variant<std::exception_ptr>;
+  static constexpr bool sends_done = true;
+  tok_ctl* c;
+  template <typename R>
+  friend tok_op<remove_cvref_t<R>> tag_invoke(tag_t<unifex::connect>, const tok_sender& s, R&& r) {
+    return tok_op<remove_cvref_t<R>>{(R&&)r, s.c};
+  }
+};
+
+// let_value_with_stop_token: the successor gets an inplace_stop_token that follows the receiver's token.
+// prestop: the receiver's source is stopped before start; otherwise it is stopped while the child runs.
+void run_lvst(const char* name, bool prestop, char child_outcome) {
+  inplace_stop_source src;
+  Rec rec; rec.src = &src;
+  tok_ctl c;
+  inplace_stop_token handed;
+  if (prestop) src.request_stop();
+  {
+    auto op = unifex::connect(
+        let_value_with_stop_token([&](inplace_stop_token t) noexcept { handed = t; return tok_sender{&c}; }),
+        receiver{&rec});
+    unifex::start(op);
+    bool seen_before = c.seen_tok.stop_requested() || handed.stop_requested();
+    if (!prestop) src.request_stop();
+    bool seen = c.started && (handed.stop_requested());
+    if (c.complete) c.complete(child_outcome);
+    int after = rec.completion != '-' ? live_on(src) : -1;
+    // seen: the stop request on the receiver's token was visible through the token handed to the successor factory
+    std::printf("%s completion=%c live_rcv=%d live_ext=%d after=%d seen=%d early=%d\n", name, rec.completion, rec.live_rcv, 0, after,
+                (int)seen, (int)(!prestop && seen_before));
+    std::fflush(stdout);
+  }
+}
+
 template <typename Make>
 void run(const char* name, Rec& rec, Make make) {
   inplace_stop_source src;
@@ -122,6 +180,9 @@ int main() {
     rec.ext[0] = &st;
     run("sor_prestopped_then_throw", rec, [&] { return stop_on_request(pre.get_token(), ttoken{&st}); });
   }
+  run_lvst("lvst_stop_while_running_d", false, 'd');
+  run_lvst("lvst_stop_while_running_v", false, 'v');
+  run_lvst("lvst_prestopped_d", true, 'd');
   std::printf("END\n");
   return 0;
 }
